@@ -393,8 +393,8 @@ Fixpoint run_log c s (sched : list (nat * nat)) : list (nat * option (list event
       end
   end.
 
-(* verdict: 0 = every thread finished or idle with nothing outstanding, 1 = some thread
-   is enabled (without a spurious wake-up), 2 = requests outstanding and nobody can move *)
+(* verdict: 0 = every loop thread reached the end of uv_run (nothing outstanding), 1 = some
+   thread is enabled (without a spurious wake-up), 2 = a loop waits and nobody can move *)
 Definition any_enabled c s : bool :=
   existsb (fun t => match step c s t 0 with Some _ => true | None => false end)
           (seq 0 (c_loops c + c_n c)).
@@ -404,5 +404,5 @@ Definition unfinished (s : state) : bool :=
 Definition loops_ended c s : bool :=
   forallb (fun l => match l_pc (lp s l) with LEnd => true | _ => false end) (seq 0 (c_loops c)).
 Definition verdict c s : Z :=
-  if loops_ended c s && negb (unfinished s) then 0%Z
+  if loops_ended c s then 0%Z
   else if any_enabled c s then 1%Z else 2%Z.
